@@ -105,6 +105,7 @@ class FakeSocket:
         self._connect_waiter = None
         self.index = len(world.sockets)
         self.consumed = 0
+        self.accepted = False  # inbound connections: taken from the listen queue by ExaBGP
         world.sockets.append(self)
 
     # -- socket API used by ExaBGP ---------------------------------------------------------------
@@ -225,6 +226,7 @@ class FakeListenSocket:
         if not self.queue:
             raise OSError(errno.EAGAIN, 'no connection')
         io = self.queue.popleft()
+        io.accepted = True
         return io, io.remote
 
     def close(self) -> None:
